@@ -12,7 +12,7 @@ META = {
             '-> nondeterministic, undeclared state, a used state missing from the states line, undeclared symbol, no initial line, two initial states, repeated declaration, '
             'transition with <3 words, ill-formed label) must be rejected with an error; outcomes compared with the Lean parser; every '
             'returned object is checked against its class invariant; non-trivial = layout differing from the printer\'s, or a corruption; '
-            'distinct by text; also states named like a keyword of another automaton kind, a used state missing from the states line, symbols that only start like a word (a,b a-z)',
+            'distinct by text; also states named like a keyword of another automaton kind, a used state missing from the states line, symbols that only start like a word (a,b a-z); one description with more than 256 transitions (well-formed and with one fault)',
     'assumptions': ['ASCII text plus ε and □; state names \\w+ not equal to keywords of the format'],
     'trusted_base': ['Lean: Gamba/Model/Parse.lean'],
 }
@@ -250,6 +250,14 @@ def cases(ctx):
             c = corrupt(kind, X, rng)
             if c:
                 yield {'kind': kind, 'X': X, 'text': c[1], 'fault': c[0]}
+    # a description with more than 256 transitions (130-150 states over two symbols), well-formed and with one fault
+    for i in range(1 if not thorough else 6):
+        X = gen.wide_dfa(rng)
+        text, _, _ = render('dfa', X, rng)
+        yield {'kind': 'dfa', 'X': X, 'text': text, 'fault': None}
+        c = corrupt('dfa', X, rng)
+        if c:
+            yield {'kind': 'dfa', 'X': X, 'text': c[1], 'fault': c[0]}
 
 
 def lean_requests(c):
